@@ -189,7 +189,7 @@ pub fn gen_plan(ch: &mut Choices, mode: &str, thorough: bool) -> Plan {
             0 => 1 + ch.choose(6) as usize,
             1 => 32,
             // "never delete", spelled the way people spell it
-            _ => *ch.pick(&[usize::MAX, usize::MAX / 2, 100_000]),
+            _ => *ch.pick(&[usize::MAX, usize::MAX / 2, 1 << 40, 100_000]),
         }
     } else {
         match ch.weighted(&[3, 5]) {
